@@ -121,14 +121,14 @@ PARSE = contract(
     W + "parseAnchorName",
     props=[],  # summary only: see vcheck/hooks/c06.py (bounded, exhaustive over a small alphabet)
     params={"anchorName": STR, "markPrefix": Const("_"), "ligaSeparator": Const("_"), "ignoreRE": Const(None)},
-    returns=Tuple(BOOL, STR, Opt(INT), BOOL, BOOL),
+    returns=Tuple(BOOL, STR, Opt(INT), BOOL, Union(STR, BOOL)),
     requires=["len(anchorName) > 0"],
     ensures={
         "isMark": "result[0] == an_is_mark(anchorName)",
         "key": "result[1] == an_key(anchorName)",
         "number": "result[2] == an_number(anchorName)",
         "isContextual": "result[3] == an_contextual(anchorName)",
-        "isIgnorable": "result[4] == an_ignorable(anchorName)",
+        "isIgnorable": "iff(result[4], an_ignorable(anchorName))",  # ('' for an empty key, else a bool: its truth value)
     },
     raises={"ValueError": "an_invalid(anchorName)"},
     notes="bounded: discharged by enumeration, not by the solver",
@@ -151,7 +151,7 @@ def _markAnchorName(ex, st, self):
 cls(
     "NamedAnchor",
     fields={"name": STR, "x": INT, "y": INT, "isMark": BOOL, "key": STR, "number": Opt(INT), "markClass": Opt(Ref("C06_MarkClass")),
-            "isContextual": BOOL, "isIgnorable": BOOL, "libData": Opt(Ref("C06_LibData"))},
+            "isContextual": BOOL, "isIgnorable": Union(STR, BOOL), "libData": Opt(Ref("C06_LibData"))},
     derived={"markAnchorName": _markAnchorName},
     views={"isIgnorable": lambda o: bool(o.isIgnorable), "markAnchorName": lambda o: o.markAnchorName},
     repo=W + "NamedAnchor",
@@ -177,7 +177,7 @@ contract(
     ensures={
         "position": "self.name == name and self.x == x and self.y == y",
         "classified": "self.isMark == an_is_mark(name) and self.key == an_key(name) and self.number == an_number(name)",
-        "flags": "self.isContextual == an_contextual(name) and self.isIgnorable == an_ignorable(name)",
+        "flags": "self.isContextual == an_contextual(name) and iff(self.isIgnorable, an_ignorable(name))",
         "no-class-yet": "self.markClass is None",
         "component-index-from-1": "implies(self.number is not None, self.number >= 1)",
         "keyed-or-numbered": "self.number is not None or self.key != ''",
